@@ -4,8 +4,10 @@ import (
 	"flag"
 	"fmt"
 	"os"
+	"path/filepath"
 	"sort"
 	"strings"
+	"sync"
 	"time"
 )
 
@@ -76,8 +78,14 @@ func cmdVerify(args []string) {
 	tq := fs.Int("t", 10, "solver seconds")
 	verbose := fs.Bool("v", false, "print obligations")
 	dbg := fs.Bool("panic", false, "do not recover engine panics")
+	cores := fs.Float64("cores", 0, "extract proof hints (unsat cores) for obligations slower than this many seconds and store them under -hints")
+	hdir := fs.String("hints", "/verif/hints", "proof hints dir")
+	coreof := fs.String("coreof", "", "only write <obligation>.core.smt2 (all quantified assumptions named) for obligations whose name contains this text")
 	fs.Parse(args)
 	debugPanic = *dbg
+	if *cores == 0 {
+		loadHints(*hdir)
+	}
 	e := load(*repo, *ext)
 	keys := e.matchKeys(fs.Args())
 	if len(keys) == 0 {
@@ -104,7 +112,22 @@ func cmdVerify(args []string) {
 				o  *Obl
 			}{res.VC, o})
 		}
+		if *coreof != "" {
+			os.MkdirAll(*out, 0o755)
+			for _, o := range res.Obls {
+				if strings.Contains(o.Name, *coreof) {
+					script, _ := res.VC.coreScript(o)
+					f := filepath.Join(*out, smtName(o.Name)+".core.smt2")
+					os.WriteFile(f, []byte(script), 0o644)
+					fmt.Println(f)
+				}
+			}
+			continue
+		}
 		SolveAll(items, *out, 16, *tq, *tq*3, false)
+		if *cores > 0 {
+			extractHints(res.VC, res.Obls, *out, *hdir, *cores, res.Short)
+		}
 		ok := 0
 		for _, o := range res.Obls {
 			if o.Status == "unsat" {
@@ -152,4 +175,59 @@ func cmdList(args []string) {
 		}
 		fmt.Printf("%-70s %v%s\n", e.shortName(k), fc.Props, tag)
 	}
+}
+
+// extractHints stores the unsat cores of the slow obligations (of the whole goal, or of its conjuncts when the whole
+// goal is too hard) as proof hints.
+func extractHints(vc *VC, obls []*Obl, out, hdir string, slower float64, fn string) {
+	type job struct{ o *Obl }
+	var jobs []*Obl
+	for _, o := range obls {
+		if o.Status != "unsat" || o.TimeS < slower {
+			continue
+		}
+		jobs = append(jobs, o)
+	}
+	res := map[string][]string{}
+	var mu sync.Mutex
+	var wg sync.WaitGroup
+	sem := make(chan bool, 12)
+	run := func(o *Obl) bool {
+		core := vc.extractCore(o, out, 300)
+		if core == nil {
+			return false
+		}
+		mu.Lock()
+		res[o.Name] = core
+		mu.Unlock()
+		return true
+	}
+	for _, o := range jobs {
+		wg.Add(1)
+		go func(o *Obl) {
+			defer wg.Done()
+			sem <- true
+			defer func() { <-sem }()
+			if run(o) {
+				return
+			}
+			parts := splitGoal(o.Goal)
+			if len(parts) <= 1 {
+				fmt.Println("   no core for", o.Name)
+				return
+			}
+			for i, p := range parts {
+				sub := *o
+				sub.Goal, sub.Name, sub.part = p, fmt.Sprintf("%s.c%d", o.Name, i+1), true
+				if !run(&sub) {
+					fmt.Println("   no core for", sub.Name)
+				}
+			}
+		}(o)
+	}
+	wg.Wait()
+	if err := saveHints(hdir, fn, res); err != nil {
+		fmt.Println("   cannot save hints:", err)
+	}
+	fmt.Printf("   %d proof hints stored for %s\n", len(res), fn)
 }
